@@ -16,7 +16,9 @@ from .lib import flag_names, T_REF, T_CONST
 INT_MAX = 2147483647
 INT_MIN = -2147483648
 
-ARENA_STRINGS = [b"ck", b"K", b"k", b"", b"a/b", b"A", b"a", b"m~n", b"const key with spaces", b"0", b"\xc3\xa9"]
+ARENA_STRINGS = [b"ck", b"K", b"k", b"", b"a/b", b"A", b"a", b"m~n", b"const key with spaces", b"0", b"\xc3\xa9",
+                 # borrowed strings that utilities read as operation names and JSON pointers (appended: indices above are stable)
+                 b"add", b"replace", b"copy", b"move", b"test", b"remove", b"/a~1b", b"/m~0n", b"/k", b"/borrowed~1path~0", b"/0", b"/a~1b/0"]
 KEY_POOL = [b"a", b"A", b"b", b"B", b"k", b"K", b"key", b"KEY", b"Key", b"", b"0", b"1", b"a/b", b"m~n", b"z", b"Z", b"ab", b"aB", b"\xc3\xa9", b"k2",
             # pairs that differ only in bit 0x20 but are NOT letters: ASCII case folding must keep them apart
             b"[", b"{", b"@", b"`", b"]", b"}", b"^", b"~", b"_", b"\x7f", b"\\", b"|", b"k[", b"K{", b"\xc3\x89", b"0", b"\x10", b"1", b"\x11"]
